@@ -11,9 +11,12 @@ _T = ['convDt_formula', 'convDt_pos', 'convDt_linear', 'burgersDt_formula', 'bur
 THEOREMS = ['Flowdyn.C18.' + t for t in _T]
 AUDIT_IMPORTS = ['Flowdyn.Props.KernelsBridge', 'Flowdyn.Props.Kernels2DBridge']
 THEOREMS = THEOREMS + ['Flowdyn.GenK.%s_eq' % k for k in ['swDt', 'eDt', 'convDt', 'eVelocityMag']] + ['Flowdyn.GenK2.e2Dt_eq']
-PARTIAL = {'Flowdyn.C18.sw_eigen_partial': "eigenpairs of the closed-form Jacobian; that the matrix is the derivative of the physical flux is not proved (validated numerically by the oracle)",
-           'Flowdyn.C18.e_eigen_partial': "same for the Euler flux Jacobian"}
-LEVEL_NOTE = "formula, positivity, bilinearity proved; spectral-radius link through explicit eigenpairs (partial); global-min / local-array use by the driver is covered by C07's driver model and checked here on the implementation"
+import core as _core
+AUDIT_IMPORTS = AUDIT_IMPORTS + ['Flowdyn.Props.C18b']
+THEOREMS = THEOREMS + _core.theorems_in(['C18b.lean'], 'Flowdyn.C18')
+PARTIAL = {'2D': "e2Dt uses |V| + c, the maximum over unit normals of the spectral radius of the normal flux Jacobian; proved: formula, positivity, bilinearity, the translated body (GenK2.e2Dt_eq); the maximisation over directions is not stated as a theorem",
+           'driver': "global-min / local-array use of the time step by the driver is in the driver model (C07) and checked here on the implementation"}
+LEVEL_NOTE = "formula, positivity, bilinearity proved; the Jacobian matrices are proved to be the Frechet derivatives of the model's own consistent flux in conservative variables, their eigenvalues are exactly u-c,(u),u+c (characteristic polynomial), hence spectral radius |u|+c = the denominator of the time step (C18b.sw_spectral, e_spectral, conv_spectral, burgers_spectral)"
 
 
 def layers(ctx):
